@@ -50,7 +50,7 @@ type StructDataProvider struct {
 
 func (s *StructDataProvider) Get(key string) any {
 	field := s.value.FieldByName(key)
-	if !field.IsValid() {
+	if !field.IsValid() || !field.CanInterface() {
 		return nil
 	}
 	return field.Interface()
@@ -63,7 +63,7 @@ func (s *StructDataProvider) GetByField(field reflect.StructField, fallback stri
 
 func (s *StructDataProvider) GetNestedProvider(key string) DataProvider {
 	field := s.value.FieldByName(key)
-	if !field.IsValid() {
+	if !field.IsValid() || !field.CanInterface() {
 		return nil
 	}
 	dataProvider, _ := TryNewAnyDataProvider(field.Interface())
